@@ -1,6 +1,7 @@
 package c18
 
 import (
+	"fmt"
 	"strconv"
 	"strings"
 
@@ -41,7 +42,13 @@ func (m macro) String() string {
 
 // expand runs one macro operation on the live case (addresses are looked up in
 // the shadow state at that moment).
-func (x *run) macro(m macro) {
+func (x *run) macro(m macro) bool {
+	n := len(x.trace)
+	x.macro1(m)
+	return len(x.trace) > n // false: no step of the operation was applicable in this state
+}
+
+func (x *run) macro1(m macro) {
 	c := strconv.Itoa(m.c)
 	switch m.op {
 	case "JA", "JE", "JX":
@@ -92,12 +99,18 @@ func (x *run) macro(m macro) {
 	}
 }
 
-func runMacroCase(r *common.Run, addrs []int, ms []macro, class string) {
-	runCaseWith(r, addrs, func(x *run) {
-		for _, m := range ms {
-			x.macro(m)
+// runMacroCase returns the length of the shortest prefix whose last operation did nothing
+// (0: every operation did something).
+func runMacroCase(r *common.Run, addrs []int, cf nsConf, ms []macro, class string) int {
+	dead := 0
+	runCaseWith(r, addrs, cf, func(x *run) {
+		for i, m := range ms {
+			if !x.macro(m) && dead == 0 {
+				dead = i + 1
+			}
 		}
 	}, class)
+	return dead
 }
 
 // alphabet of macro operations for a configuration (kinds: see the switch).
@@ -194,36 +207,61 @@ func runContention(r *common.Run) int {
 		addrs, nicks []int
 		kind         string
 		maxLen       int
+		ns           string // configuration token of the session ("" = jabber:client, with callbacks)
 	}
 	confs := []conf{
-		{[]int{0, 0}, nil, "core", 4},        // two channels for one occupant address
-		{[]int{0, 0}, []int{10}, "plain", 3}, // … which may also ask for another nickname
-		{[]int{0, 10}, nil, "plain", 3},      // two nicknames of one room, each channel may ask for the other's
-		{[]int{0, 0}, nil, "full", 3},        // with cancelled calls and occupant presences
+		{[]int{0, 0}, nil, "core", 5, ""},        // two channels for one occupant address
+		{[]int{0, 0}, []int{10}, "plain", 3, ""}, // … which may also ask for another nickname
+		{[]int{0, 10}, nil, "plain", 3, ""},      // two nicknames of one room, each channel may ask for the other's
+		{[]int{0, 0}, nil, "full", 3, ""},        // with cancelled calls and occupant presences
+		{[]int{0, 0}, nil, "core", 3, "%a"},      // the same on a component session …
+		{[]int{0, 10}, nil, "plain", 2, "%sn"},   // … and on a server-to-server session, Client without callbacks
 	}
 	if r.Tier == "thorough" {
 		confs = []conf{
-			{[]int{0, 0}, nil, "core", 5},
-			{[]int{0, 0}, []int{10}, "plain", 4},
-			{[]int{0, 10}, nil, "plain", 4},
-			{[]int{0, 0}, nil, "full", 3},
-			{[]int{0, 0, 10}, nil, "plain", 3},
+			{[]int{0, 0}, nil, "core", 5, ""},
+			{[]int{0, 0}, []int{10}, "plain", 4, ""},
+			{[]int{0, 10}, nil, "plain", 4, ""},
+			{[]int{0, 0}, nil, "full", 3, ""},
+			{[]int{0, 0, 10}, nil, "plain", 3, ""},
+			{[]int{0, 0}, nil, "core", 4, "%a"},
+			{[]int{0, 0}, []int{10}, "plain", 3, "%sn"},
+			{[]int{0, 10}, nil, "plain", 3, "%an"},
+			{[]int{0, 0}, nil, "full", 3, "%s"},
 		}
 	}
-	n := 0
-	stop := func() bool { return len(r.Failures) >= 80 || r.Hist["problem"] >= 25 }
+	n, pruned := 0, 0
+	stop := func() bool { return tooMany(r) }
 	for _, cf := range confs {
 		alpha := macroAlphabet(cf.addrs, cf.nicks, cf.kind)
+		// dead prefixes: an operation that does nothing in the state its prefix leads to (a Leave
+		// while the Leave of that channel … , an error reply nobody waits for) makes the history
+		// equal to the one without it, which — shortest first — has been run already; the
+		// executor is deterministic, so every sequence with that prefix is skipped
+		dead := map[string]bool{}
 		enumMacros(alpha, cf.addrs, cf.maxLen, func(ms []macro) {
 			if stop() {
 				return
 			}
+			for k := 1; k <= len(ms); k++ {
+				if dead[macroLine(ms[:k])] {
+					pruned++
+					return
+				}
+			}
 			r.Mark("case contention %d", n)
-			runMacroCase(r, cf.addrs, ms, "contention")
+			sess := nsConfs['c']
+			if cf.ns != "" {
+				sess, _ = splitConf([]string{cf.ns})
+			}
+			if d := runMacroCase(r, cf.addrs, sess, ms, "contention"); d > 0 {
+				dead[macroLine(ms[:d])] = true
+			}
 			n++
 		})
 	}
-	rconfs := []conf{{[]int{0, 0}, []int{10}, "full", 0}, {[]int{0, 10}, nil, "full", 0}, {[]int{0, 0, 10}, nil, "full", 0}, {[]int{0, 0}, nil, "core", 0}}
+	r.Notes = append(r.Notes, fmt.Sprintf("contention: %d sequences skipped because an operation of theirs does nothing after its prefix (equal to a shorter history)", pruned))
+	rconfs := []conf{{[]int{0, 0}, []int{10}, "full", 0, ""}, {[]int{0, 10}, nil, "full", 0, ""}, {[]int{0, 0, 10}, nil, "full", 0, ""}, {[]int{0, 0}, nil, "core", 0, ""}}
 	for k := r.Pick(500, 8000); k > 0 && !stop(); k-- {
 		cf := rconfs[r.Rnd.Intn(len(rconfs))]
 		alpha := macroAlphabet(cf.addrs, cf.nicks, cf.kind)
@@ -232,7 +270,7 @@ func runContention(r *common.Run) int {
 			ms = append(ms, alpha[r.Rnd.Intn(len(alpha))])
 		}
 		r.Mark("case contention %d", n)
-		runMacroCase(r, cf.addrs, ms, "contention-random")
+		runMacroCase(r, cf.addrs, nsConfs["ccccsa"[r.Rnd.Intn(6)]], ms, "contention-random")
 		n++
 	}
 	return n
